@@ -981,6 +981,134 @@ func (c *bodyCtx) fieldStore(s *ast.AssignStmt, l ast.Expr, rhs ast.Expr) {
 // over its parameters m (a map), k and v; returns the map argument of the call.
 func (a *Analyzer) joinHelperCall(info *types.Info, call *ast.CallExpr) (ast.Expr, bool) {
 	fn, _ := typeutil.Callee(info, call).(*types.Func)
+	if fn == nil || !load.IsRepoPkg(fn.Pkg()) || len(call.Args) != 3 {
+		return nil, false
+	}
+	sf := a.P.SSA.FuncValue(fn)
+	if sf == nil || len(sf.Blocks) == 0 || len(sf.Params) != 3 || !isMap(sf.Params[0].Type()) {
+		return nil, false
+	}
+	if !isJoinHelperSSA(sf) {
+		return nil, false
+	}
+	return call.Args[0], true
+}
+
+// isJoinHelperSSA: f(m, k, v) does nothing but m[k] = v when k is absent and m[k] = max(m[k], v) when it is
+// present — whatever the statement shape (if/else, early return, inverted test). Repeated application in any
+// order leaves m[k] = max of all v (commutative, associative, idempotent).
+func isJoinHelperSSA(f *ssa.Function) bool {
+	m, k, v := f.Params[0], f.Params[1], f.Params[2]
+	var lookups []*ssa.Lookup
+	updates := 0
+	strip := func(x ssa.Value) ssa.Value {
+		for {
+			switch y := x.(type) {
+			case *ssa.Convert:
+				x = y.X
+				continue
+			case *ssa.ChangeType:
+				x = y.X
+				continue
+			}
+			return x
+		}
+	}
+	isCur := func(x ssa.Value) bool {
+		x = strip(x)
+		if ex, ok := x.(*ssa.Extract); ok && ex.Index == 0 {
+			if lk, ok := ex.Tuple.(*ssa.Lookup); ok && lk.X == ssa.Value(m) && lk.Index == ssa.Value(k) {
+				return true
+			}
+		}
+		if lk, ok := x.(*ssa.Lookup); ok && !lk.CommaOk && lk.X == ssa.Value(m) && lk.Index == ssa.Value(k) {
+			return true
+		}
+		return false
+	}
+	isMaxOfCurAndV := func(x ssa.Value) bool {
+		x = strip(x)
+		c, ok := x.(*ssa.Call)
+		if !ok || len(c.Common().Args) != 2 {
+			return false
+		}
+		name := ""
+		if b, isB := c.Common().Value.(*ssa.Builtin); isB {
+			name = b.Name()
+		} else if cal := c.Common().StaticCallee(); cal != nil && cal.Pkg != nil && cal.Pkg.Pkg.Path() == "math" {
+			name = cal.Name()
+		}
+		if name != "max" && name != "Max" {
+			return false
+		}
+		a0, a1 := c.Common().Args[0], c.Common().Args[1]
+		return (isCur(a0) && strip(a1) == ssa.Value(v)) || (isCur(a1) && strip(a0) == ssa.Value(v))
+	}
+	// presence at a block: the dominating test of the comma-ok result
+	present := func(b *ssa.BasicBlock) (bool, bool) {
+		for cur := b; cur != nil && cur.Idom() != nil; cur = cur.Idom() {
+			idom := cur.Idom()
+			ifi, ok := idom.Instrs[len(idom.Instrs)-1].(*ssa.If)
+			if !ok || len(cur.Preds) != 1 {
+				continue
+			}
+			cond := ifi.Cond
+			neg := false
+			if u, isU := cond.(*ssa.UnOp); isU && u.Op == token.NOT {
+				cond, neg = u.X, true
+			}
+			ex, isEx := cond.(*ssa.Extract)
+			if !isEx || ex.Index != 1 {
+				continue
+			}
+			if lk, isLk := ex.Tuple.(*ssa.Lookup); !isLk || lk.X != ssa.Value(m) || lk.Index != ssa.Value(k) {
+				continue
+			}
+			branch := idom.Succs[0] == cur
+			return branch != neg, true
+		}
+		return false, false
+	}
+	for _, b := range f.Blocks {
+		for _, in := range b.Instrs {
+			switch x := in.(type) {
+			case *ssa.Lookup:
+				if x.X != ssa.Value(m) || x.Index != ssa.Value(k) {
+					return false
+				}
+				lookups = append(lookups, x)
+			case *ssa.MapUpdate:
+				if x.Map != ssa.Value(m) || x.Key != ssa.Value(k) {
+					return false
+				}
+				updates++
+				isPresent, known := present(b)
+				switch {
+				case !known:
+					return false
+				case !isPresent && strip(x.Value) == ssa.Value(v):
+				case isPresent && isMaxOfCurAndV(x.Value):
+				default:
+					return false
+				}
+			case *ssa.Store, *ssa.Send, *ssa.Go, *ssa.Defer, *ssa.Panic:
+				return false
+			case *ssa.Call:
+				if _, isB := x.Common().Value.(*ssa.Builtin); isB {
+					continue
+				}
+				if cal := x.Common().StaticCallee(); cal != nil && cal.Pkg != nil && cal.Pkg.Pkg.Path() == "math" {
+					continue
+				}
+				return false
+			}
+		}
+	}
+	return updates >= 2 && len(lookups) >= 1
+}
+
+func (a *Analyzer) joinHelperCallAST(info *types.Info, call *ast.CallExpr) (ast.Expr, bool) {
+	fn, _ := typeutil.Callee(info, call).(*types.Func)
 	if fn == nil || !load.IsRepoPkg(fn.Pkg()) {
 		return nil, false
 	}
